@@ -32,3 +32,13 @@ Theorem C16_to_fst : forall (Q : Type) (A : enfa Q) (w o : list N),
   Rel (enfa_to_fst A) w o <-> o = w /\ Lang A w.
 Proof. exact (@to_fst_rel). Qed.
 Print Assumptions C16_to_fst.
+
+(* translate finishes when epsilon-input moves write nothing: the reachable (remaining input, output, state) configurations lie in
+   the finite universe t_univ; fuel n with 3 * |t_univ| < 2^n suffices *)
+From Coq Require Import Arith.
+From PFL Require Import Proofs.FstTotal.
+Theorem C16_translate_total : forall (Q : Type) (E : EqDec Q) (F : fst Q) (w : list N),
+  (forall q r out, In (q, None, r, out) (f_delta F) -> out = nil) ->
+  forall n, (3 * length (t_univ F w) < 2 ^ n)%nat -> exists outs, translate n F w = Some outs.
+Proof. exact (@translate_total). Qed.
+Print Assumptions C16_translate_total.
